@@ -646,3 +646,59 @@ func TestVerifC05Race(t *testing.T) {
 		r.Sample("no scenario in this shard")
 	}
 }
+
+// TestVerifC11ClientFaults: the C05 scenarios in which the shared client process misbehaves
+// while one or two server batches are in flight (dies with exit 0/1, closes its output but keeps
+// reading, answers an unknown test), judged for what C11 states: every batch ends, run()
+// returns, every selected case has exactly one outcome, every server is stopped.
+func TestVerifC11ClientFaults(t *testing.T) {
+	r := rep.New("c11-clientfaults")
+	defer r.Write()
+	r.Rule = "the real run() with 2-3 server instances on 1-2 slots sharing one scripted client process that fails after 0-2 answers (exit 0, exit 1, closes its output and keeps reading its input, answers an unknown test); every order of peer events and lock-level interleaving up to the preemption bound; oracle: run() returns, each selected permutation has exactly one outcome, all servers stopped; non-trivial = distinct (scenario, choice list)"
+	bound := 1
+	if rep.Thorough() {
+		bound = 2
+	}
+	var scs []c05Scenario
+	for _, sc := range c05Scenarios(rep.Thorough()) {
+		if sc.ClientFault == "" || sc.Mode != "both" {
+			continue
+		}
+		if !rep.Thorough() && sc.Cfg != "A2" {
+			continue
+		}
+		scs = append(scs, sc)
+	}
+	unowned := func(sc c05Scenario) bool { return true }
+	gateExploreOpt(t, r, scs, bound, unowned, func(sc c05Scenario, prefix []int, expect []gate.PointRec) gateRun {
+		x, obs, leak := c05RunOne(t, sc, prefix, expect)
+		verdicts := obs.Verdicts
+		if obs.Returned && obs.Results != nil {
+			// run() has returned and the bubble is gone: nobody else touches the table any more.
+			// C11 speaks about batches: a batch whose server process was started must leave an
+			// outcome for each of its cases (cases of batches that were never started are counted
+			// by the report as "could not be run", which C04 judges).
+			w := obs.World
+			w.mu.Lock()
+			for n, e := range obs.Expected {
+				started := false
+				for _, srec := range w.servers {
+					srec.srv.mu.Lock()
+					got := srec.srv.gotRequest
+					srec.srv.mu.Unlock()
+					if got != nil && got.Protocol == e.inst.protocol && got.HttpVersion == e.inst.httpVersion && got.UseTls == e.inst.useTLS {
+						started = true
+					}
+				}
+				if !started {
+					continue
+				}
+				if _, ok := obs.Results.outcomes[n]; !ok {
+					verdicts = append(verdicts, gateVerdict{"case-without-outcome", fmt.Sprintf("permutation %q has no outcome although its server batch was started and run() returned (client fault %s after %d answers)", n, sc.ClientFault, sc.ClientFaultAt)})
+				}
+			}
+			w.mu.Unlock()
+		}
+		return gateRun{x: x, outcome: c05Outcome(sc, obs), verdicts: verdicts, leak: leak}
+	})
+}
